@@ -434,7 +434,8 @@ func main() {
 		ordered(src(dp), "GetPartitionOwner(int(partID))", "len(owners) == 0", "FindMemberByName(owner.Name)", "!owner.CompareByID(current)",
 			"NewLengthOfPart(partID)", "count == 0", "owner.CompareByID(newOwner.(discovery.Member))", "return append(owners, newOwner.(discovery.Member))") &&
 		ordered(src(db), "r.getReplicaOwners(partID)", "newOwners = newOwners[1:]", "len(owners) == 0", "FindMemberByName(backup.Name)", "!backup.CompareByID(cur)",
-			"NewLengthOfPart(partID).SetReplica()", "count != 0", "owners = append(owners[:i], owners[i+1:]...)", "for _, newOwner := range newOwners", "owner.CompareByID(newOwner.(discovery.Member))")
+			"NewLengthOfPart(partID).SetReplica()", "count != 0", "owners = append(owners[:i], owners[i+1:]...)", "for _, newOwner := range newOwners", "owner.CompareByID(newOwner.(discovery.Member))",
+			"owners = append(owners[:i], owners[i+1:]...)", "owners = append(owners, newOwner.(discovery.Member))")
 	addBool("distribute_prunes_then_appends_ring_owners", shape, "distributePrimaryCopies / distributeBackups: prune departed or re-joined members, prune owners that report zero keys, move the ring's owner(s) to the end")
 	rtGo := parse("internal/cluster/routingtable/routingtable.go")
 	opGo := parse("internal/cluster/routingtable/operations.go")
@@ -490,7 +491,26 @@ func main() {
 		// the import reports the first entry it could not merge
 		ordered(src(imp), "err = f(hkey, e)", "return err == nil", "return err") &&
 		// previous owners are not repaired
-		ordered(src(rrp), "value.previousOwner", "continue", "NewPutEntry")
+		ordered(src(rrp), "value.previousOwner", "continue", "NewPutEntry") &&
+		// a Delete visits EVERY previous owner: the loop body returns only on an error
+		func() bool {
+			dfp := funcDecl(delGo, "DMap", "deleteFromPreviousOwners")
+			if dfp == nil {
+				return false
+			}
+			ok := true
+			ast.Inspect(dfp.Body, func(n ast.Node) bool {
+				if fs, isFor := n.(*ast.ForStmt); isFor {
+					for _, st := range fs.Body.List {
+						if _, isRet := st.(*ast.ReturnStmt); isRet {
+							ok = false // an unconditional return inside the loop ends it after the first owner
+						}
+					}
+				}
+				return true
+			})
+			return ok && strings.Contains(src(dfp), "i := len(owners) - 2; i >= 0; i--")
+		}()
 	addBool("handover_merges_lww_then_drops", handover, "fragment.Move exports a table, sends it under the DMap's own name, and drops it only after every receiver acknowledged; the receiver merges entry by entry (last write wins) and reports a failed merge; read repair skips previous owners")
 
 	// ---- structural facts: pub/sub (C14)
